@@ -43,7 +43,11 @@ def _self_attr_stores(code):
 
 
 def run(ctx):
-    repo = ctx.repo
+    # the cross-check compares the *raw* tree (no helper inlining / alias substitution) with the bytecode
+    from .model import Repo
+    from .effects import EffectAnalyser
+    repo = Repo(ctx.repo.root, sources=ctx.repo.sources, normalise=False)
+    effects = EffectAnalyser(repo)
     rep = ctx.report
     checked = 0
     for mod in repo.modules.values():
@@ -74,7 +78,7 @@ def run(ctx):
                     raise AnalysisError('cross-check: %s.%s generator flag %s but AST model says %s' % (
                         cls.qualname, mname, gen_bc, gen_ast))
                 if mem.kind in ('method', 'property') and repo.dataset_base() in cls.mro:
-                    local, _c = ctx.effects.local_effects(mem.node, cls, mod)
+                    local, _c = effects.local_effects(mem.node, cls, mod)
                     ast_stores = {e.info[0] for e in local if e.etype == 'WRITE_SELF' and e.info[1] in ('rebind', 'aug', 'del')}
                     ast_stores |= {e.info[0] for e in local if e.etype == 'WRITE_INPUT' and False}
                     bc_stores = _self_attr_stores(co)
